@@ -61,3 +61,129 @@ package httpgen
 //@   ensures refuses: err != nil ==> !spec.AllOK_timestampFormat(messages)
 //@   loop 1 invariant forall k int :: 0 <= k && k < _i1 ==> spec.MsgOK_timestampFormat(messages[k]) && spec.AllOK_timestampFormat(messages[k].Messages)
 //@   loop 2 invariant forall j int :: 0 <= j && j < _i2 ==> spec.Rule_timestampFormat(msg.Fields[j])
+
+//@ func (g *Generator) generateBytesEncodingFile(file *protogen.File) (err error)
+//@   ensures err == nil ==> spec.AllOK_bytes(file.Messages)
+
+//@ func hasFlattenFields(message *protogen.Message) (r bool)
+//@   pure
+//@   ensures r == spec.hasFlatten(message)
+
+//@ func detectMarshalJSONConflicts(msg *protogen.Message) (r []string)
+//@   pure
+
+//@ func validateFlattenMarshalJSONConflict(msg *protogen.Message) (err error)
+//@   pure
+//@   ensures (err == nil) <==> len(detectMarshalJSONConflicts(msg)) == 0
+
+//@ func validateFlattenInMessages(messages []*protogen.Message) (err error)
+//@   decreases spec.depth(messages)
+//@   ensures ok: err == nil ==> spec.AllOK_flatten(messages)
+//@   loop 1 invariant forall k int :: 0 <= k && k < _i1 ==> spec.MsgOK_flatten(messages[k]) && spec.AllOK_flatten(messages[k].Messages)
+//@   loop 2 invariant forall j int :: 0 <= j && j < _i2 ==> spec.Rule_flattenField(msg.Fields[j])
+
+//@ func validateOneofDiscriminatorInMessages(messages []*protogen.Message) (err error)
+//@   decreases spec.depth(messages)
+//@   ensures ok: err == nil ==> spec.AllOK_oneof(messages)
+//@   ensures refuses: err != nil ==> !spec.AllOK_oneof(messages)
+//@   loop 1 invariant forall k int :: 0 <= k && k < _i1 ==> spec.MsgOK_oneof(messages[k]) && spec.AllOK_oneof(messages[k].Messages)
+//@   loop 2 invariant forall j int :: 0 <= j && j < _i2 && annotations.GetOneofConfig(msg.Oneofs[j]) != nil ==> spec.OneofOK(msg, msg.Oneofs[j])
+
+//@ func validateEnumAnnotations(field *protogen.Field) (err error)
+//@   pure
+//@   ensures iff: (err == nil) <==> spec.Rule_enum(field)
+//@   ensures names: err != nil ==> contains(errmsg(err), string(field.Desc.Name()))
+
+//@ func (g *Generator) validateEnumAnnotationsInMessage(msg *protogen.Message) (err error)
+//@   decreases spec.mdepth(msg)
+//@   ensures ok: err == nil ==> spec.EnumOK(msg)
+//@   ensures refuses: err != nil ==> !spec.EnumOK(msg)
+//@   loop 1 invariant forall j int :: 0 <= j && j < _i1 ==> spec.Rule_enum(msg.Fields[j])
+//@   loop 2 invariant forall k int :: 0 <= k && k < _i2 ==> spec.EnumOK(msg.Messages[k])
+
+//@ func (g *Generator) validateEnumAnnotationsInFile(file *protogen.File) (err error)
+//@   ensures ok: err == nil ==> spec.AllOK_enum(file.Messages)
+//@   ensures refuses: err != nil ==> !spec.AllOK_enum(file.Messages)
+//@   loop 1 invariant forall k int :: 0 <= k && k < _i1 ==> spec.EnumOK(file.Messages[k])
+
+//@ func (g *Generator) generateNullableEncodingFile(file *protogen.File) (err error)
+//@   ensures err == nil ==> spec.AllOK_nullable(file.Messages)
+
+//@ func (g *Generator) generateEmptyBehaviorEncodingFile(file *protogen.File) (err error)
+//@   ensures err == nil ==> spec.AllOK_emptyBehavior(file.Messages)
+
+//@ func (g *Generator) generateTimestampFormatEncodingFile(file *protogen.File) (err error)
+//@   ensures err == nil ==> spec.AllOK_timestampFormat(file.Messages)
+
+//@ func (g *Generator) generateFlattenFile(file *protogen.File) (err error)
+//@   ensures err == nil ==> spec.AllOK_flatten(file.Messages)
+
+//@ func (g *Generator) generateOneofDiscriminatorFile(file *protogen.File) (err error)
+//@   ensures err == nil ==> spec.AllOK_oneof(file.Messages)
+
+//@ func collectFileUnwrapFields(messages []*protogen.Message, global *GlobalUnwrapInfo) (err error)
+//@   decreases spec.depth(messages)
+//@   modifies global
+//@   ensures ok: err == nil ==> spec.AllOK_unwrap(messages)
+//@   ensures refuses: err != nil ==> !spec.AllOK_unwrap(messages)
+//@   loop 1 invariant forall k int :: 0 <= k && k < _i1 ==> spec.Rule_unwrap(messages[k]) && spec.AllOK_unwrap(messages[k].Messages)
+
+//@ func CollectGlobalUnwrapInfo(files []*protogen.File) (global *GlobalUnwrapInfo, err error)
+//@   ensures ok: err == nil ==> (forall k int :: 0 <= k && k < len(files) && files[k].Generate ==> spec.AllOK_unwrap(files[k].Messages))
+//@   ensures refuses: err != nil ==> (exists k int :: 0 <= k && k < len(files) && files[k].Generate && !spec.AllOK_unwrap(files[k].Messages))
+//@   loop 1 invariant forall k int :: 0 <= k && k < _i1 && files[k].Generate ==> spec.AllOK_unwrap(files[k].Messages)
+
+//@ func (g *Generator) generateFile(file *protogen.File) (err error)
+//@   ensures enum: err == nil ==> spec.AllOK_enum(file.Messages)
+//@   ensures nullable: err == nil ==> spec.AllOK_nullable(file.Messages)
+//@   ensures emptyBehavior: err == nil ==> spec.AllOK_emptyBehavior(file.Messages)
+//@   ensures timestampFormat: err == nil ==> spec.AllOK_timestampFormat(file.Messages)
+//@   ensures bytes: err == nil ==> spec.AllOK_bytes(file.Messages)
+//@   ensures flatten: err == nil ==> spec.AllOK_flatten(file.Messages)
+//@   ensures oneof: err == nil ==> spec.AllOK_oneof(file.Messages)
+
+//@ func (g *Generator) Generate() (err error)
+//@   modifies g
+//@   ensures frame: g.plugin == old(g.plugin)
+//@   ensures unwrap: err == nil ==> (forall k int :: 0 <= k && k < len(g.plugin.Files) && g.plugin.Files[k].Generate ==> spec.AllOK_unwrap(g.plugin.Files[k].Messages))
+//@   ensures rules: err == nil ==> (forall k int :: 0 <= k && k < len(g.plugin.Files) && g.plugin.Files[k].Generate ==> spec.FileOK_http(g.plugin.Files[k]))
+//@   loop 1 invariant forall k int :: 0 <= k && k < _i1 && g.plugin.Files[k].Generate ==> spec.FileOK_http(g.plugin.Files[k])
+
+// ---- HTTP configuration validation ----
+
+//@ func findFieldByProtoName(message *protogen.Message, fieldName string) (r *protogen.Field)
+//@   pure
+//@   existing
+//@   ensures found: r != nil ==> member(message.Fields, r) && string(r.Desc.Name()) == fieldName
+//@   ensures missing: (r == nil) <==> !spec.hasFieldNamed(message, fieldName)
+//@   loop 1 invariant forall k int :: 0 <= k && k < _i ==> string(message.Fields[k].Desc.Name()) != fieldName
+
+//@ func isPathParamCompatible(field *protogen.Field) (r bool)
+//@   pure
+//@   ensures r == (spec.scalarKind(field) && !field.Desc.IsList() && !field.Desc.IsMap())
+
+//@ func getBodyFields(message *protogen.Message, pathParams []string, queryParams []annotations.QueryParam) (r []*protogen.Field)
+//@   pure
+//@   ensures sound: forall k int :: 0 <= k && k < len(r) ==> member(message.Fields, r[k]) && !spec.isPathVar(pathParams, string(r[k].Desc.Name())) && !spec.isQueryField(queryParams, string(r[k].Desc.Name()))
+//@   ensures nonempty: len(r) > 0 <==> spec.anyUnbound(message, pathParams, queryParams)
+//@   loop 3 invariant len(bodyFields) > 0 ==> (exists j int :: j < _i && spec.unboundField(message, pathParams, queryParams, j))
+//@   loop 1 invariant forall s string :: (inDom(pathParamSet, s) && pathParamSet[s]) <==> (exists k int :: 0 <= k && k < _i && pathParams[k] == s)
+//@   loop 2 invariant forall s string :: (inDom(queryParamSet, s) && queryParamSet[s]) <==> (exists k int :: 0 <= k && k < _i && queryParams[k].FieldName == s)
+//@   loop 3 invariant forall k int :: 0 <= k && k < len(bodyFields) ==> member(message.Fields, bodyFields[k]) && !spec.isPathVar(pathParams, string(bodyFields[k].Desc.Name())) && !spec.isQueryField(queryParams, string(bodyFields[k].Desc.Name()))
+//@   loop 3 invariant (exists j int :: 0 <= j && j < _i && !spec.isPathVar(pathParams, string(message.Fields[j].Desc.Name())) && !spec.isQueryField(queryParams, string(message.Fields[j].Desc.Name()))) ==> len(bodyFields) > 0
+
+//@ func ValidateMethodConfig(service *protogen.Service, method *protogen.Method) (errs []ValidationError)
+//@   pure
+//@   ensures nocfg: !spec.hasConfig(method) ==> len(errs) == 0
+//@   ensures accepts.vars: spec.hasConfig(method) && len(errs) == 0 ==> spec.pathVarsOK(method)
+//@   ensures accepts.clash: spec.hasConfig(method) && len(errs) == 0 ==> spec.noPathQueryClash(method)
+//@   ensures accepts.bodiless: spec.hasConfig(method) && len(errs) == 0 ==> spec.bodilessBound(method)
+//@   ensures refuses: spec.hasConfig(method) && len(errs) > 0 ==> !spec.Rule_http_impl(method)
+//@   loop 1 invariant (len(errors) == 0) <==> (forall k int :: 0 <= k && k < _i1 ==> spec.okPathVar(method.Input, config.PathParams[k]))
+//@   loop 2 invariant (len(errors) == 0) <==> (spec.pathVarsOK(method) && (forall a int, b int :: 0 <= a && a < _i2 && 0 <= b && b < len(config.PathParams) ==> queryParams[a].FieldName != config.PathParams[b]))
+//@   loop 3 invariant (len(errors) == 0) <==> (spec.pathVarsOK(method) && (forall a int, b int :: 0 <= a && a < _i2 && 0 <= b && b < len(config.PathParams) ==> queryParams[a].FieldName != config.PathParams[b]) && (forall b int :: 0 <= b && b < _i3 ==> qp.FieldName != config.PathParams[b]))
+
+//@ func ValidateService(service *protogen.Service) (err error)
+//@   ensures ok: err == nil ==> (forall k int :: 0 <= k && k < len(service.Methods) ==> len(ValidateMethodConfig(service, service.Methods[k])) == 0)
+//@   ensures refuses: err != nil ==> (exists k int :: 0 <= k && k < len(service.Methods) && len(ValidateMethodConfig(service, service.Methods[k])) > 0)
+//@   loop 1 invariant forall k int :: 0 <= k && k < _i1 ==> len(ValidateMethodConfig(service, service.Methods[k])) == 0
